@@ -184,6 +184,47 @@ def St.detach (s : St) (h len : Nat) : St × Bool :=
     else if ob.elems.length * 8 > capOf (len * 8) then (s, false)          -- copy does not fit: refused, still shared
     else (s.relocate h o (capOf (len * 8)) false, true)                    -- shared: content copied
 
+/-! ### the C++ handle class `mpt::reference<T>` (mptcore/core.h)
+
+  Objects may OWN a handle (`next`): handle slot `nroot + o` of the state is the handle owned by object `o`,
+  slots below `nroot` are free-standing handles.  Destroying an object destroys its handle (`delete this` runs
+  `~reference()`): modelled by `cascade`, which drops the slots of destroyed objects until none is left. -/
+
+/-- `reference & operator= (reference const &ref)` on slot `h`, `src` = the referent of `ref`:
+    nothing for the same referent; else retain the new one (a failed retain leaves the handle EMPTY), release
+    the old one, store -/
+def St.assignRef (s : St) (h : Nat) (src : Option Nat) : St :=
+  if src = s.hnd.getD h none then s
+  else
+    { ((s.retain src).1.release (s.hnd.getD h none)) with
+        hnd := ((s.retain src).1.release (s.hnd.getD h none)).hnd.set h (if (s.retain src).2 then src else none) }
+
+/-- `reference & operator= (reference &&ref)`: `ref` (slot `g`) is emptied, `set_instance` releases the old
+    referent of `h` and stores the moved one -/
+def St.moveRef (s : St) (h g : Nat) : St :=
+  if h = g then s
+  else
+    { (({ s with hnd := s.hnd.set g none } : St).release (s.hnd.getD h none)) with
+        hnd := (({ s with hnd := s.hnd.set g none } : St).release (s.hnd.getD h none)).hnd.set h (s.hnd.getD g none) }
+
+/-- `T *detach()`: the handle is emptied, its reference lives on outside -/
+def St.detachRef (s : St) (h : Nat) : St :=
+  match s.hnd.getD h none with
+  | none => s
+  | some o => { s with hnd := s.hnd.set h none, objs := s.objs.set o { (s.obj o) with ext := (s.obj o).ext + 1 } }
+
+/-- a destroyed object whose owned handle still refers to something -/
+def St.pendingOwner (s : St) (nroot : Nat) : Option Nat :=
+  (List.range s.objs.length).find? fun o => !(s.obj o).alive && (s.hnd.getD (nroot + o) none).isSome
+
+/-- destroy the handles owned by destroyed objects -/
+def St.cascade (s : St) (nroot : Nat) : Nat → St
+  | 0 => s
+  | fuel + 1 =>
+    match s.pendingOwner nroot with
+    | none => s
+    | some o => (s.drop (nroot + o)).cascade nroot fuel
+
 /-- the kind of handle an object needs -/
 def St.isMetaObj (s : St) (o : Nat) : Bool := (s.obj o).kind.isMeta
 
